@@ -207,7 +207,17 @@ func (u *Unit) specExpr(st *State, e *SExpr, env *SpecEnv, q *bool) *Val {
 			}
 			t := u.resolveType(gp, gf.Type)
 			h := u.heapGet(st, "G!"+e.Name, sortOf(t))
-			return u.fromScalar(st, app("select", h, u.scalar(st, x)), t)
+			gv := u.fromScalar(st, app("select", h, u.scalar(st, x)), t)
+			if _, isMap := types.Unalias(t).Underlying().(*types.Map); isMap {
+				u.eng.heapIsRef["G!"+e.Name] = true
+			}
+			if _, isMap := types.Unalias(t).Underlying().(*types.Map); isMap && !strings.Contains(gv.S, "!q") {
+				// the heap is closed: a map-valued ghost field of an allocated object names an allocated map
+				// (as for real reference fields, see loadField)
+				st.assumeFact(tImp(app("<=", u.scalar(st, x), st.wm), app("<=", gv.S, st.wm)))
+				st.assumeFact(app(">=", gv.S, "0")) // identities of ordinary maps are non-negative (embedded xsync.Map values live below zero)
+			}
+			return gv
 		}
 		// qualified constant pkg.Name
 		if e.Args[0].Op == "id" {
